@@ -358,6 +358,14 @@ pub(crate) mod verif_hooks {
             .ok()
             .map(|si| (si.shard, si.nr_shards, si.msb_ignore))
     }
+
+    pub(crate) fn shard_info_from_options(
+        options: &std::collections::HashMap<String, Vec<String>>,
+    ) -> Option<(u16, ShardCount, u8)> {
+        ShardInfo::try_from(options)
+            .ok()
+            .map(|si| (si.shard, si.nr_shards, si.msb_ignore))
+    }
 }
 
 #[cfg(test)]
